@@ -320,4 +320,51 @@ def defineX (S : List Nat) (exps : List (List Nat)) (name : List Nat) : Res :=
   | some i => if S.getD i 0 = 120 then .str [120] else .throwType
   | none => if name = sLength then .throwType else let _ := exps; .str [120]
 
+/-! ## Order of the abstract operations (the step order of each algorithm in §15.5.4): CheckObjectCoercible(this)
+     and ToString(this) first, then the arguments from left to right, each converted exactly once, whether
+     or not the result will need it.  An undefined argument is "converted" without observable effect. -/
+
+/-- §15.5.4.11 replace for a String searchValue and a `$`-free String replaceValue: the first occurrence -/
+def replaceUnits (S T R : List Nat) : List Nat :=
+  match searchUp S T (S.length + 1) 0 with
+  | Int.ofNat k => S.take k ++ R ++ S.drop (k + T.length)
+  | _ => S
+
+def replace (E : Env) (r : Recv) (args : List Val) : Res :=
+  withThis E r fun S => .str (replaceUnits S (toString E (argAt args 0)) (toString E (argAt args 1)))
+
+def pureMethod (m : String) : Option (Env → Recv → List Val → Res) :=
+  match m with
+  | "charAt" => some charAt | "charCodeAt" => some charCodeAt | "concat" => some concat
+  | "indexOf" => some indexOf | "lastIndexOf" => some lastIndexOf | "slice" => some slice
+  | "substring" => some substring | "substr" => some substr | "split" => some split
+  | "trim" => some trim | "localeCompare" => some localeCompare | "toLowerCase" => some toLowerCase
+  | "toUpperCase" => some toUpperCase | "replace" => some replace
+  | _ => none
+
+/-- the ES5 step order.  slice/substring (§15.5.4.13/.15 steps 4–5) and substr (B.2.3 steps 2–3) convert start, then
+    end/length unless it is undefined; indexOf/lastIndexOf (§15.5.4.7/.8 steps 3–4) convert searchString, then
+    position; split (§15.5.4.14 steps 5, 8) converts limit (unless undefined), THEN separator — before step 9
+    returns for lim = 0; replace (§15.5.4.11) converts searchValue and then replaceValue, match or not;
+    charAt/charCodeAt (§15.5.4.4/.5 steps 2–3) convert this, then pos. -/
+def es5Order (m : String) (r : Run) (d : Done) : Option Nat :=
+  if !recvOK r && m != "substr" then none else      -- substr (Annex B.2.3) has no coercibility check
+  let all := List.range (r.args.length + 1)
+  let opt (k : Nat) : List Nat := if present r k then [k + 1] else []
+  match m with
+  | "charAt" | "charCodeAt" => inOrder ([0] ++ opt 0) d
+  | "concat" => inOrder all d
+  | "indexOf" | "lastIndexOf" => inOrder ([0, 1] ++ opt 1) d
+  | "localeCompare" => inOrder [0, 1] d
+  | "slice" | "substring" | "substr" => inOrder ([0, 1] ++ opt 1) d
+  | "split" => inOrder ([0] ++ opt 1 ++ opt 0) d
+  | "replace" => inOrder [0, 1, 2] d
+  | _ => inOrder [0] d
+
+def es5Plan (E : Env) (m : String) : Plan where
+  next := es5Order m
+  finish := fun r d => match pureMethod m with
+    | some f => f E (recvOf E r d) (argsOf r d)
+    | none => .undef
+
 end OttoVerif.C09.Spec
